@@ -881,7 +881,7 @@ class ExprMixin:
             head = self.join("comp-head")
             self.link_all(preds, head)
             heads.append(head)
-            preds = self.assign(g.target, Val("elem", itv), {head})
+            preds = self.assign(g.target, self.elem_of(itv), {head})
             for c in g.ifs:
                 cv, preds = self.ev(c, preds)
                 # filtered elements loop back
@@ -921,6 +921,16 @@ class ExprMixin:
         if v.kind == "cattr":
             return self.node("cs_read", preds, name=v.args[1], op=op, cls=v.args[0], target=v)
         return preds
+
+    def elem_of(self, itv):
+        """The loop variable's value when iterating ``itv``: for the result of an (inlined) generator function the
+        values it yields, otherwise an opaque element of the iterable."""
+        alts = itv.args if itv.kind == "phi" else (itv,)
+        ys = [a.args[0] for a in alts if a.kind == "gen" and a.args]
+        rest = [a for a in alts if a.kind != "gen" and not (a.kind == "const" and a.args[0] is None)]
+        if ys and not rest:
+            return self.merge_vals(ys)
+        return Val("elem", itv)
 
     def iterate(self, itv, preds):
         if itv.kind == "inst":
